@@ -46,7 +46,7 @@ TECHNIQUE = "Lean 4 refinement proof (stream = full for all chunkings) + exact-i
 def configs(ctx):
     r = ctx.rng
     out = []
-    maxL = 9 if ctx.tier == "quick" else 13
+    maxL = 9 if ctx.tier == "quick" else 16
     for L in range(1, maxL + 1):
         for S in range(1, L + 1):
             for centered, kaldi in ((False, False), (True, False), (True, True)):
@@ -62,6 +62,8 @@ def lengths(ctx, L, S):
     base = {0, 1, S // 2, max(0, S // 2 - 1), L // 2, L // 2 + 1, L - 1, L, L + 1, 2 * L, 3 * L + 2, S, 2 * S, 3 * S + 1}
     for _ in range(3):
         base.add(ctx.rng.randrange(0, 3 * L + 3))
+    if ctx.tier == "thorough" and L <= 8:
+        base |= set(range(0, 3 * L + 3))
     return sorted(n for n in base if n >= 0)
 
 
@@ -108,15 +110,15 @@ def run(ctx, driver):
     r = ctx.rng
     cfgs = configs(ctx)
     r.shuffle(cfgs)
-    budget = ctx.scale(2500, 60000)
+    budget = ctx.scale(2500, 150000)
     jobs = []  # (cfg, taps, ops, meta)
     per_cfg = max(2, budget // max(1, len(cfgs)))
     for (L, S, centered, kaldi) in cfgs:
         kinds = ["pow", "ramp"] + (["hot%d" % r.randrange(L)] if L > 1 else [])
-        for N in lengths(ctx, L, S)[: per_cfg]:
+        for N in lengths(ctx, L, S)[: max(per_cfg, 60 if ctx.tier == "thorough" else 0)]:
             taps = sc.window_taps(r.choice(kinds), L, seed=r.randrange(5))
-            chunkings = [random_chunking(r, N) for _ in range(2)]
-            if ctx.tier == "thorough" and N <= 6:
+            chunkings = [random_chunking(r, N) for _ in range(2 if ctx.tier == "quick" else 4)]
+            if ctx.tier == "thorough" and N <= 7:
                 chunkings += list(compositions(N))
             for ch in chunkings:
                 ops = ["c%d" % n for n in ch] + ["z", "F%d" % N, "B%d:%d" % (N, r.choice([1, 2, 3, S, L, 1024]))]
